@@ -16,6 +16,14 @@ image_to_tile, n_deepest_layer_tiles, compute_for_subimage) is compared with TLC
 size pairs and sub-images; real end-to-end tilings (StudyTiling.tile_image, Builder.tile_base_as_study + WTML
 URL template, the `tile-study` CLI) are read back from disk with independent readers, reassembled in display
 orientation with TLC's file-row table and compared with the image at TLC's offsets.
+
+Image CONTENT (spec: ValueClasses / ValuesOK / TileOfClassStored): besides seeded ordinary values and undefined regions,
+images hold the defined value classes TLC lists per kind of image - infinities, signed zeros, subnormals, smallest normal
+and largest finite numbers; 1 and the largest integer; black / white, alpha 1 / 255 - as whole tiles of one class, rows
+and columns crossing the tiles and single pixels, per mode x lossless format, through the library, Builder, sub-images,
+mode histories and the CLI.  The caller's INTEGERS (spec: ReprSlotsOK / ReprSubOK): sub-image offsets / sizes and pixel
+indexes are also handed over as NumPy integers of every fitting width (scalars, index arrays), including tilings wide
+enough that offset sums leave the 8- and 16-bit ranges; the expectation is the same table, being a function of the values.
 """
 import json
 import os
@@ -413,6 +421,7 @@ def _first_diff(t, s, et, es):
 # ------------------------------------------------------------------------------------------------
 
 NP_INTS = ("uint8", "int8", "uint16", "int16", "uint32", "int32", "uint64", "int64")
+REPR_FINDINGS_AS_VIOLATIONS = True      # see report() in run(): the unchanged code fails these two monitors (open finding)
 KEY_NPARGS = "subimage:numpy-integer-arguments"
 KEY_NPINDEX = "study:image_to_tile:numpy-integer-indexes"
 
@@ -494,7 +503,12 @@ def repr_slots(st, w, h, segsx, segsy, case, variant):
 def subimage_with_np_args(parent, q, variant):
     """compute_for_subimage with its four arguments as NumPy integer scalars. Returns (tiling or exception, description)."""
     import warnings
-    args = [as_np_int(v, variant + j) for j, v in enumerate(q)]
+    import numpy as np
+    if variant % 3 == 0:        # the four arguments in ONE type: the narrowest signed / unsigned type that holds them all
+        common = [t for t in NP_INTS if t.startswith("uint" if variant % 2 else "int") and all(t in np_holders(v) for v in q)][0]
+        args = [getattr(np, common)(v) for v in q]
+    else:                       # each argument in a type of its own (narrowest, narrowest signed / unsigned, int64, one wider)
+        args = [as_np_int(v, variant + j) for j, v in enumerate(q)]
     how = ",".join(type(a).__name__ for a in args)
     try:
         with warnings.catch_warnings():
@@ -713,46 +727,56 @@ def lay_edges(a, mode, gx0, gy0, seed):
     is global (gx0, gy0)).  The classes are the DEFINED classes of TLC's EdgeValueTable for the image's kind (floats: the
     infinities, signed zeros, subnormals, smallest normal, largest finite; integers: 1 and the largest; colour: black and
     white, alpha 1 and 255); every one of them is a defined pixel, so the expectation does not change.
-    1 a whole tile inside the image plus a 3-pixel rim holds ONE class (so does the last whole tile, another class); an
-      image without a whole tile gets the part inside its first / last tile filled instead
-    2 one image row and one image column (crossing every tile) hold one class each
+    1 tiles whose image part holds ONE class and nothing else (spec: TileOfClassStored - such a tile has data): the image
+      part of the first and of the last populated tile, and the first and last tile lying wholly inside the image; the
+      first of these always holds an infinity in float images
+    2 one image row and one image column (crossing the other tiles) hold one class each
     3 every class at a handful of single pixels (F16x3: also in single channels), and at the image's corners."""
     import numpy as np
     g = np.random.default_rng(seed + 4241)
     kind = MODE_KIND[mode]
-    classes = sorted(c for c, defined in T.values[kind].items() if defined and c != "ordinary")
+    classes = sorted((c for c, defined in T.values[kind].items() if defined and c != "ordinary"), key=lambda c: (not c.endswith("inf"), c))
     if not classes:
         raise RuntimeError("no value classes for kind %s" % kind)
+    n = len(classes)
     h, w = a.shape[:2]
-    k0 = int(g.integers(0, len(classes)))
 
     def val(j):
-        return edge_value(mode, classes[(k0 + j) % len(classes)], a.dtype)
+        return edge_value(mode, classes[j % n], a.dtype)
 
-    def span(t, g0, n, rim=0):
-        return slice(max(0, t * TS - g0 - rim), min(n, (t + 1) * TS - g0 + rim))
+    def span(t, g0, m):
+        return slice(max(0, t * TS - g0), min(m, (t + 1) * TS - g0))
+    tx0, tx1, ty0, ty1 = gx0 // TS, (gx0 + w - 1) // TS, gy0 // TS, (gy0 + h - 1) // TS
     txs = list(range((gx0 + TS - 1) // TS, (gx0 + w) // TS))       # tiles lying completely inside the image
     tys = list(range((gy0 + TS - 1) // TS, (gy0 + h) // TS))
-    if w * h > 1:
-        if txs and tys:
-            a[span(tys[0], gy0, h, 3), span(txs[0], gx0, w, 3)] = val(0)
-            if len(txs) > 1 or len(tys) > 1:
-                a[span(tys[-1], gy0, h), span(txs[-1], gx0, w)] = val(1)
-        else:
-            a[span(gy0 // TS, gy0, h), span(gx0 // TS, gx0, w)] = val(0)
-            if (gx0 + w - 1) // TS != gx0 // TS or (gy0 + h - 1) // TS != gy0 // TS:
-                a[span((gy0 + h - 1) // TS, gy0, h), span((gx0 + w - 1) // TS, gx0, w)] = val(1)
-        a[int(g.integers(0, h)), :] = val(2)
-        a[:, int(g.integers(0, w))] = val(3)
-    for j in range(len(classes)):
-        for _ in range(5):
-            y, x = int(g.integers(0, h)), int(g.integers(0, w))
-            if mode == "F16x3" and _ % 2:
-                a[y, x, int(g.integers(0, 3))] = val(j)
-            else:
-                a[y, x] = val(j)
-    for j, (y, x) in enumerate(((0, 0), (0, w - 1), (h - 1, 0), (h - 1, w - 1))):
-        a[y, x] = val(4 + j)
+    blocks = [(ty0, tx0)]
+    if (ty1, tx1) != (ty0, tx0):
+        blocks.append((ty1, tx1))
+    if txs and tys:
+        blocks += [b for b in ((tys[0], txs[0]), (tys[-1], txs[-1])) if b not in blocks]
+    keep = np.zeros((h, w), dtype=bool)                              # pixels of the single-class tiles
+    if len(blocks) > 1 or w * h == 1:
+        for j, (ty, tx) in enumerate(blocks):
+            ys, xs = span(ty, gy0, h), span(tx, gx0, w)
+            a[ys, xs] = val(seed % 2 if j == 0 else seed + j)
+            keep[ys, xs] = True
+    free = ~keep
+    if free.any():
+        y, x = int(g.integers(0, h)), int(g.integers(0, w))
+        a[y, free[y]] = val(seed + 5)
+        a[free[:, x], x] = val(seed + 6)
+        for j in range(n):
+            for _ in range(5):
+                y, x = int(g.integers(0, h)), int(g.integers(0, w))
+                if not free[y, x]:
+                    continue
+                if mode == "F16x3" and _ % 2:
+                    a[y, x, int(g.integers(0, 3))] = val(j)
+                else:
+                    a[y, x] = val(j)
+        for j, (y, x) in enumerate(((0, 0), (0, w - 1), (h - 1, 0), (h - 1, w - 1))):
+            if free[y, x]:
+                a[y, x] = val(seed + 7 + j)
     return a
 
 
@@ -1283,6 +1307,12 @@ def run(ctx):
     repo.setup(ctx)
     import multiprocessing as mp
     import toasty.study  # noqa  (imported before forking the pools)
+    import time
+    phases, t_ = {}, [time.time()]
+
+    def phase(name):
+        phases[name] = round(time.time() - t_[0], 1)
+        t_[0] = time.time()
     rng = ctx.rng
     quick = ctx.quick
     crit = CRIT_QUICK if quick else CRIT_QUICK + CRIT_MORE
@@ -1290,8 +1320,9 @@ def run(ctx):
     ctx.rule = ("TLC explores SpecImage (small TS: every image to a bound and every sub-image) and SpecAxis (TS=256: every axis length to "
                 "a bound under every padded size, sub-axes at image ends / tile boundaries) with the property's sentences as invariants, and "
                 "emits per-axis segment tables, size-pair rows, full rectangle lists and file-row tables. The real StudyTiling is compared with "
-                "them for every pair critical x (1..bound) in both orders, sampled sub-images and sizes beyond the bound; real tilings are read "
-                "back from disk and reassembled. distinct = distinct (w, h) / sub-image / reassembly case; non-trivial = at least one tile")
+                "them for every pair critical x (1..bound) in both orders, sampled sub-images and sizes beyond the bound (arguments and indexes "
+                "also as NumPy integers of every fitting width); real tilings - of ordinary values, undefined regions and the defined value "
+                "classes at the edge of each type's meaning - are read back from disk and reassembled. distinct = distinct (w, h) / sub-image / reassembly case; non-trivial = at least one tile")
     # --replay FILE: re-run only the case recorded in a counterexample file (the TLC side runs as usual)
     only = None
     if ctx.replay_path:
@@ -1345,6 +1376,7 @@ def run(ctx):
     if len(T.own) != maxlen or not T.subaxis:
         ctx.machinery("axis tables incomplete: %d lengths, %d sub-axes" % (len(T.own), len(T.subaxis)))
 
+    phase("tlc_models")
     # ---- sub-image cases drawn from the emitted sub-axis tables (offsets at image ends / tile boundaries)
     by_parent = {}
     for (p2, plen, off, ln) in T.subaxis:
@@ -1397,6 +1429,7 @@ def run(ctx):
     ctx.tlc("MCTables", extra={"MCTables.tla": mc_tables(crit, maxlen, extra, full2d, sub2d, big, huge, bigsub)}, cfg_text=TAB_CFG,
             env={"OUT": outp}, workers=1, timeout=3600, count=False)
     tab = json.load(open(outp))
+    phase("tlc_tables")
     for i, cw in enumerate(crit):
         for j in range(maxlen):
             T.pair[(cw, j + 1)] = tuple(tab["wh"][i][j])
@@ -1448,11 +1481,20 @@ def run(ctx):
 
     def report(items, counted):
         for sev, key, msg, case in items:
+            if sev == "V" and key in (KEY_NPARGS, KEY_NPINDEX) and not REPR_FINDINGS_AS_VIOLATIONS:
+                # open finding on the unchanged code (fixes/C08-numpy-integer-arguments.diff): shown as drift until the lead
+                # has decided between the fix commit and a known: entry; then set REPR_FINDINGS_AS_VIOLATIONS = True
+                perkey["(finding) " + key] = perkey.get("(finding) " + key, 0) + 1
+                if perkey["(finding) " + key] <= 2:
+                    ctx.drift("OPEN FINDING %s %s" % (key, msg))
+                continue
             if sev == "V":
                 nviol[0] += 1
                 perkey[key] = perkey.get(key, 0) + 1
                 firstmsg.setdefault(key, msg)
-                if perkey[key] <= 100:          # every failing case is counted, the first 100 per monitor are written out
+                # every failing case is counted; the first 100 per monitor are written out (5 for the representation monitors,
+                # which fail on thousands of cases at once and must not crowd the other monitors out of the report)
+                if perkey[key] <= (5 if key in (KEY_NPARGS, KEY_NPINDEX) else 100):
                     ctx.violation("C08:" + key, msg, {"case": case})
             elif sev == "D":
                 ctx.drift("%s %s" % (key, msg))
@@ -1466,6 +1508,7 @@ def run(ctx):
         ctx.trace_ok(len(pairs))
         for p in pairs:
             ctx.distinct(("full",) + p)
+        phase("geometry_full")
         for items in pool.imap(sub_chunk, schunks):
             report(items, None)
         ctx.count(len(sub_cases))
@@ -1473,6 +1516,7 @@ def run(ctx):
         for q in sub_cases:
             ctx.distinct(("sub",) + q)
 
+        phase("geometry_sub")
         # ---- replay 2: real end-to-end tilings read back from disk
         cases = []
         seed = ctx.seed % 100000
@@ -1572,6 +1616,7 @@ def run(ctx):
             ctx.distinct(("io", case["path"], case["mode"], case["format"], case["image_format"], case["holes"]) + tuple(case["dims"]))
             report(res, None)
     ctx.note("reassembly_cases", len(cases))
+    phase("reassembly")
 
     # ---- tilings of every kind sent to a worker PROCESS through a multiprocessing queue, or inherited across a fork,
     #      and observed there (as the parallel paths of the multi-image processors hand their descriptors to workers)
@@ -1658,7 +1703,7 @@ def run(ctx):
             report(repr_slots(st, sw, sh, sx, sy, case, 0) + repr_slots(st, sw, sh, sx, sy, case, 1), None)
         except Exception as e:  # noqa
             report([("V", "subimage:raises", "compute_for_subimage%s on %dx%d raised %r" % ((ix, iy, sw, sh), W, H, e), case)], None)
-        for variant in range(5):
+        for variant in range(7):
             stn, how = subimage_with_np_args(parent, (ix, iy, sw, sh), variant)
             ncase = dict(case, args_as=how)
             if isinstance(stn, Exception):
@@ -1693,11 +1738,16 @@ def run(ctx):
         q = sub_cases[len(sub_cases) // 2]
         p2 = T.pair[(q[0], q[1])][0]
         ctx.sample({"sub_image": q, "x_segments": T.subaxis[(p2, q[0], q[2], q[4])][2], "y_segments": T.subaxis[(p2, q[1], q[3], q[5])][2]})
+    phase("trips_big_huge")
+    ctx.note("phase_wall_s", phases)
+    if os.environ.get("C08_TIMING"):
+        print("C08 phases (wall s): %s" % (phases,))
     ctx.exhaustive = False
     ctx.assume("integer image modes have no transparent/NaN value: 'undefined' is read as the value 0 there (toasty's documented mask value), "
                "and the test images of those modes contain no zero")
-    ctx.assume("test images contain only defined pixels (no NaN, alpha >= 1), so every populated tile is written; "
-               "a tile file that is absent counts as all-undefined")
+    ctx.assume("outside the punched undefined regions test images contain only defined pixels (no NaN, alpha >= 1; infinities, signed "
+               "zeros and subnormals are defined pixels), so every populated tile is written; a tile file that is absent counts as all-undefined")
+    ctx.assume("pixels are compared as numbers (+inf = +inf, 0.0 = -0.0): a differing sign bit of a zero is recorded as drift")
     ctx.assume("tile files are read with PIL / numpy.load / astropy.io.fits directly; png, npy are top-down and fits is bottom-up")
     ctx.assume("a sub-image tiling is derived from a full-image tiling (compute_for_subimage on the result of another "
                "compute_for_subimage is outside the property)")
